@@ -308,6 +308,10 @@ class Gen:
                 f.alias = r.choice(pats).lstrip("^") + f.name  # matches the pattern, but belongs to the regular field
         if kind == "dataclass" and len(o.fields) >= 2 and not o.tvars() and not any(f.initvar for f in o.fields) and r.random() < 0.12:
             o.inherit = r.randint(1, len(o.fields) - 1)  # leading fields declared in a base dataclass
+            if o.fields_set:
+                o.fs_on_base = r.random() < 0.5
+        elif kind == "dataclass" and o.fields and not o.tvars() and not any(f.initvar for f in o.fields) and r.random() < (0.3 if o.fields_set else 0.04):
+            o.inherit, o.plain_sub, o.fs_on_base = len(o.fields), True, r.random() < 0.8  # plain subclass of a (tracking) dataclass: everything inherited
         return o
 
     def _field_features(self, f: F, kind):
